@@ -157,7 +157,10 @@ std::optional<std::chrono::microseconds> getPressureTotalSome(
     if (const auto total = pressure.value().total) {
       return total.value();
     }
-    throw std::runtime_error("Senpai enabled but no total pressure info");
+    // pressure file without a total (legacy PSI format): senpai cannot drive
+    // this cgroup; skip it rather than throwing out of the main loop
+    OLOG << "Senpai needs PSI total stall time, none reported for "
+         << cgroup_ctx.cgroup().relativePath();
   }
   return std::nullopt;
 }
@@ -358,7 +361,8 @@ SystemMaybe<int64_t> Senpai::getReclaimableBytes(
   auto inactive_file_pos = stat_opt->find("inactive_file");
   if (active_file_pos == stat_opt->end() ||
       inactive_file_pos == stat_opt->end()) {
-    throw std::runtime_error("Invalid memory.stat cgroup file");
+    // incomplete memory.stat: treat like any other unreadable statistic
+    return SYSTEM_ERROR(EINVAL);
   }
   auto file_cache = active_file_pos->second + inactive_file_pos->second;
 
